@@ -39,6 +39,9 @@ type Conn struct {
 	EOFWithData bool
 	// read / write deadlines on the virtual clock (0 = none)
 	rdl, wdl int64
+	// PartialWrite > 0: the next Write of more bytes than that takes only that many and reports a timeout, as a
+	// socket with a write deadline does when the receiver is slow (one shot)
+	PartialWrite int
 }
 
 var ErrClosed = errors.New("vnet: use of closed connection")
@@ -96,6 +99,16 @@ func (c *Conn) Write(p []byte) (int, error) {
 	}
 	if len(p) == 0 {
 		return 0, nil
+	}
+	if c.PartialWrite > 0 && len(p) > c.PartialWrite {
+		n := c.PartialWrite
+		c.PartialWrite = 0
+		c.wr.total += n
+		c.Written = append(c.Written, p[:n]...)
+		if !c.wr.closedR {
+			c.wr.segs = append(c.wr.segs, append([]byte{}, p[:n]...))
+		}
+		return n, os.ErrDeadlineExceeded
 	}
 	c.wr.total += len(p)
 	c.Written = append(c.Written, p...)
